@@ -434,6 +434,7 @@ def _check_explicit(case, res, pre, cls, fname):
                     bad = ~(np.abs(g - r) <= tol)
                     if np.any(bad):
                         a, b = np.argwhere(bad)[0]
+                        X.fd_verify(o['ast'], _env(case, point), n, r)
                         tag = case['kind'] + ':' + case.get('method', 'jax') + (':colored' if case.get('coloring') else '') + \
                             (':matrix_free' if case.get('matrix_free') else '')
                         res.fail(pre + 'partial-value' + ('' if pre else ':' + tag), f"point {point}: d{o['name']}/d{n}[{a},{b}] = {g[a, b]!r} expected "
